@@ -16,6 +16,9 @@ Reading of the source
   unless the raise is the only way out of an else-branch, in which case the branch yields `default_on_raise`;
 * `int(e)` truncates toward zero, `math.ceil`/`np.ceil` and `//` are exact on rationals, `round` is not accepted;
 * float literals are the exact doubles.
+
+String-valued functions (sorter_chrom, to_label) are read by a separate, equally narrow translator with its own stated
+reading rules: `harness/extractors/exprs_chromsort.py` (primitives in `lean/CnvVerif/Model/PyStr.lean`).
 """
 from __future__ import annotations
 
